@@ -51,12 +51,13 @@ Record feats : Type := mkFeats {
   fList : bool;  (* List(T): literals, cons / first / rest / # / empty? / reverse / = / l.i, for x in l *)
   fDom : bool;   (* the parametrised domains BoxA(T) / BoxB(T) of category BoxCat(T) with defaults *)
   fMac : bool;   (* macros: type names through MI / BI, DBL(x) / SQR(x) calls *)
+  fTryTop : bool; (* `try` statements stand at file level only (true) or inside functions only (false) *)
   fQual : bool   (* literals rendered `5@MachineInteger` (true) or through the typed helper `mi(5)` (false) *)
 }.
 
 Definition draw_feats (r : rng) : feats :=
   mkFeats (rb r 1 3 4) (rb r 2 2 3) (rb r 3 4 5) (rb r 4 1 2) (rb r 5 1 2)
-          (rb r 6 2 3) (rb r 7 3 4) (rb r 8 2 3) (rb r 9 1 2) (rb r 11 1 4) (rb r 12 1 2) (rb r 15 1 2) (rb r 16 1 3) (rb r 14 1 2) (rb r 10 1 2).
+          (rb r 6 2 3) (rb r 7 3 4) (rb r 8 2 3) (rb r 9 1 2) (rb r 11 1 4) (rb r 12 1 2) (rb r 15 1 2) (rb r 16 1 3) (rb r 14 1 2) (rb r 17 1 2) (rb r 10 1 2).
 
 (* ---------------- generation environment ---------------- *)
 Record fsig : Type := mkSig {
@@ -92,10 +93,8 @@ Record genv : Type := mkGenv {
   gThr : bool;               (* inside a function that may let exceptions escape *)
   gNoTry : bool;             (* below a top-level `if` (either literal style): no `try` *)
   gNoSC : bool;              (* inside the condition of an exit `c => ..`: no short-circuit and / or *)
-  gCallTF : bool             (* only functions that never execute a `try` may be called here: inside
-                                a `try` body and inside such functions.  The pinned run time crashes
-                                when a callee's own `try` has caught an exception and the caller's
-                                `try` is then thrown to (reported as a finding)                    *)
+  gCallTF : bool             (* only functions that never execute a `try` may be called here (inside
+                                functions that are themselves `try`-free)                          *)
 }.
 
 Definition set_L (E : genv) (l : list (ty * vkind)) : genv :=
@@ -121,7 +120,7 @@ Definition no_ret (E : genv) : genv :=
   mkGenv (gFe E) (gG E) (gF E) (gL E) (gCnt E) (gTop E) None (gLoop E) (gPureF E) (gSelf E) (gNoIf E) (gNoLoop E) (gInTry E) (gThr E) (gNoTry E) (gNoSC E) (gCallTF E).
 Definition set_try (E : genv) (b : bool) : genv :=
   mkGenv (gFe E) (gG E) (gF E) (gL E) (gCnt E) (gTop E) (gRet E) (gLoop E) (gPureF E) (gSelf E) (gNoIf E)
-         (gNoLoop E) b (gThr E) (gNoTry E) (gNoSC E) true.
+         (gNoLoop E) b (gThr E) (gNoTry E) (gNoSC E) (gCallTF E).
 (* may a call to g be placed here: throwing functions only where the exception is caught
    (or passed on by a function that is itself marked throwing)                             *)
 Definition thr_ok (E : genv) (g : fsig) : bool :=
@@ -478,7 +477,7 @@ with gen_stmts (sz : nat) (E : genv) (vs : option ty) (r : rng) {struct sz} : li
   | S k =>
     let c := rn r 0 20 in
     if (16 <=? c) && negb (gPureF E) && (fExn (gFe E) || fErr (gFe E)) then
-      if (c <? 18) && fExn (gFe E) && negb (gNoTry E) then
+      if (c <? 18) && fExn (gFe E) && negb (gNoTry E) && (negb (gTop E) || fTryTop (gFe E)) then
         (* try / catch: handlers for every user exception, rotated *)
         let rot := Z.to_nat (rn r 1 3) in
         let full := orb (rb r 2 3 4) (negb (gInTry E || gThr E)) in
@@ -609,7 +608,10 @@ Definition gen_fun (sz : nat) (fe : feats) (G : list (ty * vkind)) (fs : list fs
   let name := match reuse with Some g => gs_name g | None => fresh_name fs end in
   let pure := match reuse with Some g => gs_pure g | None => rb r 6 1 2 end in
   let thr := (fExn fe && negb pure && rb r 13 1 3)%bool in
-  let maytry := (fExn fe && negb pure && rb r 14 1 2)%bool in
+  (* The pinned run time crashes when a program mixes a file-level `try` with a function whose
+     own `try` catches an exception (reported as a finding): per program, `try` stands either
+     at file level only or inside functions only (fTryTop).                                  *)
+  let maytry := (fExn fe && negb pure && negb (fTryTop fe))%bool in
   let me := mkSig name ps ret pure isrec thr maytry in
   let np := List.length ps in
   let nloc := Z.to_nat (rn r 7 3) in
